@@ -144,11 +144,13 @@ func diffObs(a, b []string) string {
 
 // replayer executes a recorded script on a fresh node + wallet instance.
 type replayer struct {
-	node   *sim.Node
-	env    *sim.Env
-	ctl    *xdb.Ctl
-	tipAnn bool
-	log    []string
+	node     *sim.Node
+	env      *sim.Env
+	ctl      *xdb.Ctl
+	tipAnn   bool
+	log      []string
+	lastDone bool           // the user operation of the last step returned success
+	issued   map[string]int // wallet id -> addresses issued by completed operations (C06 re-issue decision)
 }
 
 func newReplayer(t *rapid.T, ctl *xdb.Ctl) *replayer {
@@ -164,7 +166,7 @@ func newReplayer(t *rapid.T, ctl *xdb.Ctl) *replayer {
 	if err := env.StartStepped(); err != nil {
 		t.Fatalf("HARNESS: %v", err)
 	}
-	return &replayer{node: node, env: env, ctl: ctl, tipAnn: true}
+	return &replayer{node: node, env: env, ctl: ctl, tipAnn: true, issued: map[string]int{}}
 }
 
 func (r *replayer) close() {
@@ -224,6 +226,11 @@ func (r *replayer) taskPending() bool {
 // step executes one step; user operations that fail are repeated (bounded), which is what a user
 // or the surrounding service would do after an error.
 func (r *replayer) step(t *rapid.T, s hstep) {
+	r.lastDone = false
+	r.stepInner(t, s)
+}
+
+func (r *replayer) stepInner(t *rapid.T, s hstep) {
 	switch s.Kind {
 	case "attach":
 		if err := r.node.Attach(s.Block); err != nil {
@@ -256,6 +263,9 @@ func (r *replayer) step(t *rapid.T, s hstep) {
 			if err == nil || err == keystore.ErrDuplicateSeed {
 				break
 			}
+			if r.ctl.Frozen() {
+				return // the process is dying (C06): nothing more happens in it
+			}
 			r.log = append(r.log, fmt.Sprintf("import -> %v", err))
 			if try >= 4 {
 				t.Fatalf("importing the wallet keeps failing after the storage fault is gone: %v\n  %s", err, strings.Join(r.log, "\n  "))
@@ -271,6 +281,9 @@ func (r *replayer) step(t *rapid.T, s hstep) {
 				_, err = r.env.W.UseWallet(s.Wallet)
 			}
 			if err != nil {
+				if r.ctl.Frozen() {
+					return
+				}
 				r.log = append(r.log, fmt.Sprintf("UseWallet -> %v", err))
 				if try >= 4 {
 					t.Fatalf("UseWallet(%s) keeps failing after the storage fault is gone: %v\n  wallets: %s\n  %s", s.Wallet, err, r.walletsLine(), strings.Join(r.log, "\n  "))
@@ -279,7 +292,12 @@ func (r *replayer) step(t *rapid.T, s hstep) {
 			}
 			_, err = r.env.W.NewAddress(s.Class)
 			if err == nil {
+				r.issued[s.Wallet]++
+				r.lastDone = true
 				break
+			}
+			if r.ctl.Frozen() {
+				return
 			}
 			r.log = append(r.log, fmt.Sprintf("NewAddress -> %v", err))
 			if try >= 4 {
@@ -298,6 +316,9 @@ func (r *replayer) step(t *rapid.T, s hstep) {
 				err = r.env.W.RemoveWallet(s.Wallet, s.Pass)
 			}
 			if err != nil {
+				if r.ctl.Frozen() {
+					return
+				}
 				r.log = append(r.log, fmt.Sprintf("RemoveWallet -> %v", err))
 				if try >= 4 {
 					t.Fatalf("RemoveWallet keeps failing after the storage fault is gone: %v", err)
@@ -313,6 +334,9 @@ func (r *replayer) step(t *rapid.T, s hstep) {
 // notifications are delivered in between.
 func (r *replayer) finishTasks(t *rapid.T) {
 	for n := 0; n < 3000 && r.taskPending(); n++ {
+		if r.ctl.Frozen() {
+			return
+		}
 		ok, err := r.env.ServeWorker(20 * time.Second)
 		if err != nil {
 			t.Fatalf("HARNESS: worker: %v", err)
